@@ -153,6 +153,60 @@ fn rel(v: f64) -> RF {
     }
 }
 
+/// Value of a tolerance-checked function inside its domain (None outside).
+fn approx_value(f: Func, a: &[f64]) -> Option<f64> {
+    use Func::*;
+    let x = a[0];
+    let y = if a.len() > 1 { a[1] } else { 0.0 };
+    unsafe {
+        Some(match f {
+            Exp if x.is_finite() => libm::exp(x),
+            Exp2 if x.is_finite() => libm::exp2(x),
+            Ln if x.is_finite() && x > 0.0 => libm::log(x),
+            Lb if x.is_finite() && x > 0.0 => libm::log2(x),
+            Log if x.is_finite() && y.is_finite() && x > 0.0 && y > 0.0 && y != 1.0 => libm::log(x) / libm::log(y),
+            // root(n, x) = x^(1/n)
+            Root if x.is_finite() && y.is_finite() && y > 0.0 && x != 0.0 => libm::pow(y, 1.0 / x),
+            Sin if x.abs() <= 1e6 => libm::sin(x),
+            Cos if x.abs() <= 1e6 => libm::cos(x),
+            Tan if x.abs() <= 1e6 => libm::tan(x),
+            Sinh if x.abs() <= 1e6 => libm::sinh(x),
+            Cosh if x.abs() <= 1e6 => libm::cosh(x),
+            Tanh if x.abs() <= 1e6 => libm::tanh(x),
+            Atan if x.abs() <= 1e6 => libm::atan(x),
+            Asinh if x.abs() <= 1e6 => libm::asinh(x),
+            Asin if x.abs() <= 1.0 => libm::asin(x),
+            Acos if x.abs() <= 1.0 => libm::acos(x),
+            Acosh if x >= 1.0 && x.is_finite() => libm::acosh(x),
+            Atanh if x.abs() < 1.0 => libm::atanh(x),
+            Atan2 if x.is_finite() && y.is_finite() && !(x == 0.0 && y == 0.0) => libm::atan2(x, y),
+            _ => return None,
+        })
+    }
+}
+
+/// Conditioning guard (DESIGN §3.3): the reference is re-evaluated with each operand perturbed by
+/// +-1e-13 relative; if its own result moves by more than 1e-11 relative the point is ill-conditioned
+/// and gets no value verdict.
+fn well_conditioned(f: Func, a: &[f64], v: f64) -> bool {
+    for i in 0..a.len() {
+        for d in [1.0 + 1e-13, 1.0 - 1e-13] {
+            let mut b = a.to_vec();
+            b[i] = a[i] * d;
+            match approx_value(f, &b) {
+                Some(w) if w.is_finite() => {
+                    if (w - v).abs() > 1e-11 * v.abs() {
+                        return false;
+                    }
+                }
+                // the perturbed point leaves the domain: we are on its edge
+                _ => return false,
+            }
+        }
+    }
+    true
+}
+
 /// Depth-1 reference of a one- or two-argument function on exactly known finite-or-not operands.
 pub fn func_ref(f: Func, a: &[f64]) -> RF {
     use Func::*;
@@ -179,26 +233,6 @@ pub fn func_ref(f: Func, a: &[f64]) -> RF {
                     RF { v: 0.0, q: Q::NumEq }
                 }
             }
-            Exp if x.is_finite() => rel(libm::exp(x)),
-            Exp2 if x.is_finite() => rel(libm::exp2(x)),
-            Ln if x.is_finite() && x > 0.0 => rel(libm::log(x)),
-            Lb if x.is_finite() && x > 0.0 => rel(libm::log2(x)),
-            Log if x.is_finite() && y.is_finite() && x > 0.0 && y > 0.0 && y != 1.0 => rel(libm::log(x) / libm::log(y)),
-            // root(n, x) = x^(1/n)
-            Root if x.is_finite() && y.is_finite() && y > 0.0 && x != 0.0 => rel(libm::pow(y, 1.0 / x)),
-            Sin if x.abs() <= 1e6 => rel(libm::sin(x)),
-            Cos if x.abs() <= 1e6 => rel(libm::cos(x)),
-            Tan if x.abs() <= 1e6 => rel(libm::tan(x)),
-            Sinh if x.abs() <= 1e6 => rel(libm::sinh(x)),
-            Cosh if x.abs() <= 1e6 => rel(libm::cosh(x)),
-            Tanh if x.abs() <= 1e6 => rel(libm::tanh(x)),
-            Atan if x.abs() <= 1e6 => rel(libm::atan(x)),
-            Asinh if x.abs() <= 1e6 => rel(libm::asinh(x)),
-            Asin if x.abs() <= 1.0 => rel(libm::asin(x)),
-            Acos if x.abs() <= 1.0 => rel(libm::acos(x)),
-            Acosh if x >= 1.0 && x.is_finite() => rel(libm::acosh(x)),
-            Atanh if x.abs() < 1.0 => rel(libm::atanh(x)),
-            Atan2 if x.is_finite() && y.is_finite() && !(x == 0.0 && y == 0.0) => rel(libm::atan2(x, y)),
             W => {
                 if x.is_finite() && x >= -libm::exp(-1.0) {
                     RF { v: f64::NAN, q: Q::W(x) }
@@ -207,7 +241,17 @@ pub fn func_ref(f: Func, a: &[f64]) -> RF {
                 }
             }
             ILog => unspec(),
-            _ => okany(),
+            _ => match approx_value(f, a) {
+                Some(v) => {
+                    let r = rel(v);
+                    if matches!(r.q, Q::Rel(_)) && v != 0.0 && !well_conditioned(f, a, v) {
+                        RF { v, q: Q::OkAny }
+                    } else {
+                        r
+                    }
+                }
+                None => okany(),
+            },
         }
     }
 }
